@@ -384,8 +384,21 @@ func NewPool(kt string, code uint, variant string) *Pool {
 		// (w) committed key in the payload, signed by the attacker, and a signed window that fails at every grid time:
 		// the out-of-window shortcut must not be reachable without a valid signature
 		forged("w", func(s *OpSpec) { s.PayloadKey = s.SignKey; s.SignKey = k("a0"); s.From, s.Until = LateFrom, LateUntil }, nil)
+		if b.typ == "update" {
+			// (v) the legitimate update's signed data VERBATIM (signed by the committed key, verifiable) next to the attacker's
+			// own delta: only the delta hash inside the signed data ties the delta to the signature. Whatever an implementation
+			// remembers about a signed-data string it has verified before (the legitimate operation is resolved first, by the same
+			// components), the delta beside it is not the signed one. Updates only: a recover's signed data carries its own next
+			// commitments, so the holder's recover next to a foreign delta is still the holder's recover (empty document).
+			var lx map[string]interface{}
+			if err := json.Unmarshal(p.Ops[b.id].Req, &lx); err != nil {
+				panic(err)
+			}
+			forged("v", func(s *OpSpec) { s.Extra = map[string]interface{}{"signedData": lx["signedData"]} },
+				func(a *sidetree.Op) { a.Delta = sidetree.DeltaHashMismatch })
+		}
 		if b.typ == "deactivate" {
-			forged("g", func(s *OpSpec) { s.SignedSuffix = "EiOtherSuffix" }, func(a *sidetree.Op) { a.ParseOK = false; a.Authorized = true })
+			forged("g",func(s *OpSpec) { s.SignedSuffix = "EiOtherSuffix" }, func(a *sidetree.Op) { a.ParseOK = false; a.Authorized = true })
 		}
 		if b.id == "D0" {
 			// (x) cross-type replay: the signed data of the legitimate update U01x (signed by the update key, naming the recovery
